@@ -55,8 +55,12 @@ VALUES = [["v", 1000], ["v", -1], ["v", 0], ["v", 1], ["v", 2], ["v", 3], ["v", 
 
 def _gen_t(rng, names, composite):
     r = rng.random()
-    if r < 0.42:
+    if r < 0.38:
         return gen.gen_dep_tx(rng, names)
+    if r < 0.42:
+        # a condition over a union bound, given the way a user writes it (typing.Union / Optional-like)
+        a, b = rng.sample(["int", "str", "MyInt", "float"] + names, 2)
+        return ["D", ["U", a, b], rng.choice(["truthy", "falsy", "always", "never"])]
     if r < 0.5:
         return ["L", *rng.sample([0, 1, 2, 3, 4, 7, 1000], rng.choice([1, 1, 2, 3]))]
     if composite and r < 0.7:
@@ -132,7 +136,9 @@ def gen_case(rng, params, idx):
 
 
 def _modelled(methods):
-    return all(isinstance(p["t"], str) or p["t"][0] in ("D", "L") for m in methods for p in m["pos"] + m.get("kw", []))
+    # outcome-vs-model needs the frozen transcription to classify F1: classes, Literal, Dependent over a class bound
+    return all(isinstance(p["t"], str) or p["t"][0] == "L" or (p["t"][0] == "D" and isinstance(p["t"][1], str))
+               for m in methods for p in m["pos"] + m.get("kw", []))
 
 
 def check_case(spec, res):
